@@ -29,7 +29,9 @@ class ExtUserData:
         self.creatorID = chr(stream.get_int(1))
         self.reserved1B = stream.get_int(1)
         self.reserved2B = stream.get_int(2)
-        self.data = stream.get_mem(dataLength)
+        # A section may legitimately have no payload at all
+        self.data = stream.get_mem(dataLength) \
+            if dataLength != 0 else bytes()
 
     def toJSON(self, config: Config) -> OrderedDict:
         out = OrderedDict()
